@@ -382,7 +382,7 @@ func sizeBucket(sz string) string {
 	return "below-peek-limit"
 }
 
-var proxyPaths = []string{"/v1/chat/completions", "/api/generate", "/x", "/deep/er/path.json", "/v1/embeddings", "/a%20b/c", "/"}
+var proxyPaths = []string{"/v1/chat/completions", "/api/generate", "/x", "/deep/er/path.json", "/v1/embeddings", "/a%20b/c", "/", "/olla/proxy/v1/chat/completions", "/olla/x", "/proxy/y"}
 
 func genRequest(rng *rand.Rand, nonce string) *sent {
 	s := &sent{Nonce: nonce}
